@@ -36,8 +36,8 @@ def outcome_of(sim, case):
 
 def machine(tier, ctx):
     import sys
-    return hist.make_machine(sys.modules[__name__], tier, ctx, checks=CHECKS,
-                             weights=dict(snapshot=4, delete=3, clean=2, restore=0, list=0, concurrent=0, add_user=2, plant=2, faulty=1))
+    return hist.make_machine(sys.modules[__name__], tier, ctx, checks=CHECKS, cfg_strategy=hist.sim_config(None, ('mem', 'amem', 'local')),
+                             weights=dict(snapshot=4, delete=3, clean=2, restore=0, list=0, concurrent=0, add_user=2, plant=2, faulty=1, clean_both=1))
 
 
 def run_case(case):
